@@ -287,6 +287,30 @@ def o_insert(ev, st, t, site):
     return _set_dest(st, t, tup())
 
 
+def o_retain(ev, st, t, site):
+    lid, lst = _list_of(st, _arg(ev, st, t, 0))
+    clo = _arg(ev, st, t, 1)
+    if lid is None:
+        return False
+    keep = []
+    for e in lst:
+        r = _call_closure(ev, st, clo, [("refval", e)])
+        if r is None or r[0] != "const" or r[1] not in ("true", "false"):
+            return False
+        if r[1] == "true":
+            keep.append(e)
+    st[-lid] = ("list", tuple(keep))
+    return _set_dest(st, t, tup())
+
+
+def o_get(ev, st, t, site):
+    lid, lst = _list_of(st, _arg(ev, st, t, 0))
+    idx = _as_int(_deref(st, _arg(ev, st, t, 1)))
+    if lid is None or idx is None:
+        return False
+    return _set_dest(st, t, some(("refval", lst[idx])) if idx < len(lst) else NONE)
+
+
 def o_len(ev, st, t, site):
     lid, lst = _list_of(st, _arg(ev, st, t, 0))
     if lid is None:
@@ -325,16 +349,19 @@ RAW_ORACLES = [
     (r"VecDeque.*::push_back$|Vec.*::push$", o_push_back),
     (r"VecDeque.*::pop_front$", o_pop_front),
     (r"VecDeque.*::insert$|Vec.*::insert$", o_insert),
+    (r"VecDeque.*::retain(_mut)?$|Vec.*::retain(_mut)?$", o_retain),
+    (r"VecDeque.*::get$", o_get),
     (r"VecDeque.*::len$|Vec.*::len$", o_len),
     (r"VecDeque.*::is_empty$|Vec.*::is_empty$", o_is_empty),
     (r"Option.*::zip$", o_zip),
 ]
 
 
-def expected_sort(families, prefer):
+def expected_sort(families, prefer, tags=None):
     """Specification of sort_preferred on a list of family tags: the first address of each family moves to the front - the
-    preferred family first (IPv6 first when there is no preference) -, everything else keeps its order."""
-    elems = ["%s#%d" % (f.lower(), i) for i, f in enumerate(families)]
+    preferred family first (IPv6 first when there is no preference) -, everything else keeps its order.  `tags` gives the
+    element values (equal tags = equal addresses occurring twice in the resolver's answer)."""
+    elems = list(tags) if tags is not None else ["%s#%d" % (f.lower(), i) for i, f in enumerate(families)]
     i4 = next((i for i, f in enumerate(families) if f == "V4"), None)
     i6 = next((i for i, f in enumerate(families) if f == "V6"), None)
     order = [i4, i6] if prefer == "V4" else [i6, i4]
